@@ -164,3 +164,37 @@ Proof.
   split; [exact Hin|]. intros bsearch stored Hc.
   eapply node_from_path_finds_listed_gen2; eassumption.
 Qed.
+
+(* ---- repositories all of whose trees were written by backup *)
+Definition written_by_backup (R : repo) : Prop :=
+  forall id nodes, R id = Some nodes -> exists entries, entries_ok entries /\ nodes = backup_tree entries.
+
+Lemma written_by_backup_wf R : written_by_backup R -> wf_repo_sorted R.
+Proof.
+  intros W id nodes Hr. destruct (W id nodes Hr) as [entries [Hok ->]]. apply backup_tree_wf. assumption.
+Qed.
+
+Lemma backup_repo_lookup : forall bsearch stored, negb (bsearch && stored) = true ->
+  forall R fuel root path n, written_by_backup R ->
+  In (path, n) (ls fuel R root) -> node_from_path bsearch stored R root path = Some n.
+Proof.
+  intros bsearch stored Hc R fuel root path n W. apply node_from_path_finds_listed_gen2; [assumption|].
+  apply written_by_backup_wf. assumption.
+Qed.
+
+(* what the listing shows for such a repository: a node made from a source entry, under a path
+   whose last component is that entry's (raw) name *)
+Lemma backup_repo_listing : forall fuel R nodes prefix path n, written_by_backup R ->
+  (exists entries, entries_ok entries /\ nodes = backup_tree entries) ->
+  In (path, n) (ls_nodes fuel R nodes prefix) ->
+  exists e pre, n = mk_node e /\ bytes_ok (entry_name e) /\ path = pre ++ [entry_name e].
+Proof.
+  induction fuel as [|f IH]; intros R nodes prefix path n W [entries [Hok ->]] Hin; [contradiction|].
+  cbn [ls_nodes] in Hin. apply in_flat_map in Hin. destruct Hin as [m [Hm Hin]].
+  fold (raw_name m) in Hin. destruct Hin as [E|Hin].
+  - inversion E; subst. unfold backup_tree in Hm. apply in_map_iff in Hm. destruct Hm as [e [<- He]].
+    destruct Hok as [Hb _]. rewrite Forall_forall in Hb. specialize (Hb e He).
+    exists e, prefix. split; [reflexivity|]. split; [assumption|]. rewrite raw_name_mk_node by assumption. reflexivity.
+  - destruct (n_subtree m) as [id|]; [|contradiction]. destruct (R id) as [ns|] eqn:Hr; [|contradiction].
+    eapply IH; [exact W | exact (W id ns Hr) | exact Hin].
+Qed.
